@@ -14,17 +14,26 @@ def one(s):
 with cf.ThreadPoolExecutor(8) as ex:
   res = list(ex.map(one, items))
 alarms = 0
+known = 0
 out = ['# Behaviour-preserving refactorings vs. checks', '',
        'Each row: a refactoring that keeps behaviour (baseline passes); every check must stay silent.', '',
        '| refactoring | verdict |', '|---|---|']
 for s, txt in res:
   head = txt.splitlines()[0] if txt else ''
+  meta = json.loads((V / 'neutral' / s / 'meta.json').read_text()) if (
+      V / 'neutral' / s / 'meta.json').exists() else {}
   if 'CAUGHT by' in head or 'errors=' in head or 'FAILED' in head:
+    if meta.get('known_imprecision'):
+      known += 1
+      out.append('| %s | **false alarm, documented** %s |' % (
+          s, head.split(':', 1)[1].strip()[:80]))
+      continue
     alarms += 1
     out.append('| %s | **ALARM** %s |' % (s, head.split(':', 1)[1].strip()[:100]))
     print(txt[:1500])
   else:
     out.append('| %s | silent |' % s)
-out += ['', '%d refactorings, %d raise an alarm.' % (len(res), alarms)]
+out += ['', '%d refactorings, %d raise an alarm%s.' % (len(res), alarms, (
+    ' (plus %d documented false alarm(s), see meta.json known_imprecision)' % known) if known else '')]
 (V / 'neutral' / 'RESULTS.md').write_text('\n'.join(out) + '\n') if (V / 'neutral').exists() else None
 print(out[-1])
